@@ -549,6 +549,7 @@ class Interp:
         st.eqv_used = o.eqv_used
         st.eqv_unsound = o.eqv_unsound
         st.written = {k: list(v) for k, v in o.written.items()}
+        st.havoc_info = dict(getattr(o, 'havoc_info', {}))
         sub = Interp(self.reg, st, PathCtl(trace, pending, self.ctl.prune), self.shared)
         sub.depth = self.depth
         sub.old_heap = self.old_heap
@@ -773,7 +774,8 @@ class Interp:
                 if pre_array(a):
                     return pre_term(t.arg(1), depth + 1)
                 if z3.is_app(a) and a.decl().kind() == z3.Z3_OP_SELECT and pre_array(a.arg(0)):
-                    return pre_term(a.arg(1), depth + 1) and pre_term(t.arg(1), depth + 1)
+                    # a slot / key of a pre-state list or dict: which slot does not matter
+                    return pre_term(a.arg(1), depth + 1)
                 return False
             if k in (z3.Z3_OP_DT_ACCESSOR, z3.Z3_OP_DT_CONSTRUCTOR):
                 return all(pre_term(c, depth + 1) for c in t.children())
@@ -1153,18 +1155,54 @@ class Interp:
         _OLD[i] = (r, res)
         return res
 
+    def through_havoc(self, cur, r):
+        """`cur` is an array introduced by the havoc of a loop verified by invariant: cur[r] == prev[r] for
+        every object r that existed at loop entry and is not in the loop's frame.  Returns prev when r
+        provably is such an object, else None."""
+        info = getattr(self.st, 'havoc_info', None)     # per path: symbol names repeat across paths
+        if not info or not z3.is_const(cur):
+            return None
+        rec = info.get(cur.decl().name())
+        if rec is None or not rec[0].eq(cur):
+            return None
+        _, prev, exc, extra, n0 = rec
+        if extra:
+            return None
+
+        def entailed(f) -> bool:
+            # the quantifier-free part of the path condition refutes the negation (150 ms budget)
+            ps = self.st.pruning_solver()
+            ps.push()
+            ps.add(z3.Not(f))
+            ok = ps.check() == z3.unsat
+            ps.pop()
+            return ok
+        ro = self.fresh_offset(r)
+        if not ((ro is not None and ro < n0) or (ro is None and not self.is_elem_ref(r) and self.is_old_term(r))):
+            if ro is not None or not entailed(r < self.st.alloc0 + n0):
+                return None
+        for x in exc:
+            if not self.provably_distinct(r, x) and not entailed(r != x):
+                return None
+        return prev
+
     def peel(self, arr, r):
         """arr[r] with stores at provably different references skipped (old vs. fresh objects,
-        two different fresh objects)."""
+        two different fresh objects), and loop havocs looked through for objects outside the loop's frame."""
         cur = arr
-        while z3.is_app(cur) and cur.decl().kind() == z3.Z3_OP_STORE:
-            idx = cur.arg(1)
-            if idx.eq(r):
-                return z3.simplify(cur.arg(2))
-            if self.provably_distinct(r, idx):
-                cur = cur.arg(0)
-                continue
-            break
+        while True:
+            if z3.is_app(cur) and cur.decl().kind() == z3.Z3_OP_STORE:
+                idx = cur.arg(1)
+                if idx.eq(r):
+                    return z3.simplify(cur.arg(2))
+                if self.provably_distinct(r, idx):
+                    cur = cur.arg(0)
+                    continue
+                break
+            prev = self.through_havoc(cur, r)
+            if prev is None:
+                break
+            cur = prev
         return z3.simplify(cur[r])
 
     def heap_seg(self, r, T):
@@ -1966,8 +2004,12 @@ class Interp:
                 if self.decide(c.e == Val.none):
                     raise PyRaise(TypeError, (), '`in` None')
                 return self.contains(self.unbox(c.e, alts[0]), x)
-            if any(a[0] == 'str' for a in alts) and self.decide(Val.is_s(c.e)):
-                return self.contains(mk_str(Val.sv(c.e)), x)
+            if any(a[0] == 'str' for a in alts):
+                if self.in_spec:
+                    # specification text does not fork: "is a string that contains x"
+                    return z3.And(Val.is_s(c.e), self.contains(mk_str(Val.sv(c.e)), x))
+                if self.decide(Val.is_s(c.e)):
+                    return self.contains(mk_str(Val.sv(c.e)), x)
         if c.k == 'ref':
             pc = self.reg.pyclass(c.cls)
             f = inspect.getattr_static(pc, '__contains__', None) if pc else None
@@ -2531,14 +2573,19 @@ class Interp:
     def peel_arr(self, arr, r):
         """the inner array stored for object r (like peel, but returns the array term itself)"""
         cur = arr
-        while z3.is_app(cur) and cur.decl().kind() == z3.Z3_OP_STORE:
-            idx = cur.arg(1)
-            if idx.eq(r):
-                return cur.arg(2)
-            if self.provably_distinct(r, idx):
-                cur = cur.arg(0)
-                continue
-            break
+        while True:
+            if z3.is_app(cur) and cur.decl().kind() == z3.Z3_OP_STORE:
+                idx = cur.arg(1)
+                if idx.eq(r):
+                    return cur.arg(2)
+                if self.provably_distinct(r, idx):
+                    cur = cur.arg(0)
+                    continue
+                break
+            prev = self.through_havoc(cur, r)
+            if prev is None:
+                break
+            cur = prev
         return cur[r]
 
     def call_closure(self, c: Closure, args, kwargs) -> SV:
@@ -3411,6 +3458,10 @@ class Interp:
                 raise Unsupported(f'append to unknown name {n}')
             if v.k == 'pylist' and v.py.href is None:
                 list_acc[n] = v
+            elif (v.k == 'pylist' and v.py.href is not None) or (v.k == 'ref' and v.cls == 'list'):
+                # a list that lives on the heap: the append is a heap effect like any other store (allowed on
+                # the iteration that leaves the loop, refused on iterations that continue)
+                pass
             else:
                 raise Unsupported(f'loop appends to `{n}` which is not a local list')
         acc_syms = {n: st.fresh('acc', S) for n in str_acc}
